@@ -6,6 +6,7 @@ import (
 	"go/token"
 	"go/types"
 	"math"
+	"strings"
 
 	"golang.org/x/tools/go/ssa"
 )
@@ -18,11 +19,11 @@ type abort struct {
 }
 
 type forkReq struct {
-	kind string
-	desc string
-	alts []int   // indices of feasible alternatives
-	lits []*Term // literal per original alternative
-	vals []uint64 // optional: concrete value per original alternative
+	kind   string
+	desc   string
+	alts   []int    // indices of feasible alternatives
+	lits   []*Term  // literal per original alternative
+	vals   []uint64 // optional: concrete value per original alternative
 	models []*Model // optional: model per original alternative
 }
 
@@ -33,13 +34,13 @@ type failReq struct{ f *Failure }
 type evKind int
 
 const (
-	evVisible evKind = iota // goroutine parked in front of a visible op
-	evExit                  // goroutine finished
-	evFork                  // data fork requested
-	evFail                  // violation candidate (assert, panic, fatal)
-	evAbort                 // unsupported / bound / inconclusive: run cannot give a verdict on this path
-	evPruned                // path ended (assume false / infeasible)
-	evMainDone              // harness main returned
+	evVisible  evKind = iota // goroutine parked in front of a visible op
+	evExit                   // goroutine finished
+	evFork                   // data fork requested
+	evFail                   // violation candidate (assert, panic, fatal)
+	evAbort                  // unsupported / bound / inconclusive: run cannot give a verdict on this path
+	evPruned                 // path ended (assume false / infeasible)
+	evMainDone               // harness main returned
 )
 
 type Event struct {
@@ -90,6 +91,13 @@ func (e *Engine) run(w *Worker, st *State, g *G) (ev Event) {
 						if fr.PC < len(fr.Block.Instrs) {
 							x.pos = e.instrPos(fr)
 						}
+					}
+					if st := e.stackOf(g); len(st) > 0 {
+						n := len(st)
+						if n > 5 {
+							n = 5
+						}
+						x.msg += " [stack: " + strings.Join(st[:n], " <- ") + "]"
 					}
 					ev = Event{Kind: evAbort, Ab: &x}
 				}
@@ -299,6 +307,7 @@ func (e *Engine) unwind(w *Worker, st *State, g *G) {
 		f.Stack = p.stack
 		panic(failReq{f})
 	}
+	e.onceDone(st, g, fr)
 	g.Frames = g.Frames[:len(g.Frames)-1]
 }
 
@@ -406,7 +415,17 @@ func (e *Engine) pushCall(w *Worker, st *State, g *G, c *Closure, args []Value, 
 }
 
 // returnFrom pops the top frame delivering results to the caller.
+func (e *Engine) onceDone(st *State, g *G, fr *Frame) {
+	if fr.Once != nil {
+		st.store(oncePtr(st, *fr.Once), BV(32, 1))
+		if st.race != nil {
+			st.race.onRelease(g, keyOf(*fr.Once))
+		}
+	}
+}
+
 func (e *Engine) returnFrom(st *State, g *G, fr *Frame, results []Value) {
+	e.onceDone(st, g, fr)
 	g.Frames = g.Frames[:len(g.Frames)-1]
 	if len(g.Frames) == 0 {
 		return
